@@ -1,5 +1,7 @@
 """C19 - code tables are total, bidirectional, case-insensitive lookups.  Exhaustive (finite)."""
 import importlib
+import json
+import os
 import pkgutil
 
 from vlib import common
@@ -288,6 +290,31 @@ def run(ctx):
     # ---- status texts -------------------------------------------------------------------
     from pycomm3.cip import EXTEND_CODES, SERVICE_STATUS
     from pycomm3.packets.util import get_extended_status, get_service_status
+    # which general status codes carry a text: the CIP general status codes the library lists at the pinned commit (golden list) - the
+    # table itself cannot be the oracle for "falling back to a message containing the hex code" (entries merged in from another layer,
+    # e.g. encapsulation statuses 0x64 / 0x65 / 0x69, would make those bytes look "known")
+    gold_all = json.load(open(os.path.join(common.VERIF_DIR, "vlib", "data", "code_tables.json")))
+    gold_status = set(gold_all.get("general_status_codes", []))
+    for s in range(256):
+        if gold_status:
+            res.ev()
+            try:
+                txt_ = get_service_status(s)
+            except Exception as e:  # noqa
+                txt_ = e
+            if s not in gold_status and isinstance(txt_, str) and f"{s:02x}" not in txt_.lower():
+                res.violation("status-text-fallback", f"get_service_status({s:#x}) -> {txt_!r}: {s:#x} is not a CIP general status the library lists, the text must carry the hex code", None)
+            elif s in gold_status and (not isinstance(txt_, str) or not txt_.strip() or txt_.lower().startswith("unknown error")):
+                res.violation("status-text-known", f"get_service_status({s:#x}) -> {txt_!r}: a listed CIP general status lost its text", None)
+    for pair in gold_all.get("extended_status_pairs", []):
+        st_, ext_ = pair
+        res.ev()
+        try:
+            got_ = get_extended_status(bytes([st_, 1]) + ext_.to_bytes(2, "little"), 0) if ext_ <= 0xFFFF else get_extended_status(bytes([st_, 2]) + ext_.to_bytes(4, "little"), 0)
+        except Exception as e:  # noqa
+            got_ = e
+        if not isinstance(got_, str) or not got_.strip():
+            res.violation("extended-status-text", f"get_extended_status(status={st_:#x}, ext={ext_:#x}) -> {got_!r}: the pair had a text at the pinned commit", None)
     for s in range(256):
         res.ev()
         res.seen("status", s)
